@@ -198,6 +198,24 @@ class NTVal(tuple):
         return ('nt', self.ntc.name) + tuple(vkey(v) for v in self)
 
 
+class PartialVal:
+    """functools.partial(func, *args, **kwargs): calling it is calling `func` with the bound arguments first."""
+
+    def __init__(self, func, args, kwargs):
+        self.func = func
+        self.args = list(args)
+        self.kwargs = dict(kwargs)
+
+    def key(self):
+        return ('partial', vkey(self.func), tuple(vkey(a) for a in self.args), tuple((k, vkey(v)) for k, v in sorted(self.kwargs.items())))
+
+    def __repr__(self):
+        return f'partial({vrepr(self.func)}, {vrepr(self.args)}, {vrepr(self.kwargs)})'
+
+    def __deepcopy__(self, memo):
+        return self
+
+
 class LazyGen:
     """A generator expression evaluated on demand."""
 
@@ -210,7 +228,7 @@ class LazyGen:
 
 
 def is_concrete(v: Any) -> bool:
-    if isinstance(v, (Sym, App, Obj, ClassRef, FuncRef, ModRef, Builtin, BoundMethod, ExcVal, LazyGen)):
+    if isinstance(v, (Sym, App, Obj, ClassRef, FuncRef, ModRef, Builtin, BoundMethod, ExcVal, LazyGen, PartialVal)):
         return False
     if isinstance(v, (list, tuple, set, frozenset)):
         return all(is_concrete(x) for x in v)
@@ -700,7 +718,8 @@ class Interp:
             if not concrete:
                 sym_iters += 1
             total += 1
-            if self.loop_unroll is not None and total > self.loop_unroll:
+            # (a condition computed from concrete data - `while pending:` over a work list - ends the loop by itself and is not cut)
+            if self.loop_unroll is not None and total > self.loop_unroll and (not concrete or isinstance(st.test, ast.Constant)):
                 # a loop left only through `break` whose exit the abstraction cannot bound: cut this path after loop_unroll iterations
                 self.truncated = True
                 raise PathTruncated()
@@ -1432,6 +1451,11 @@ class Interp:
         return self.call(callee, args, kwargs, node, env)
 
     def call(self, callee: Any, args: List[Any], kwargs: Dict[str, Any], node: Optional[ast.AST], env: Optional[Env] = None):
+        # functools.partial is plumbing, not a call of the library: the hooks see the call it stands for
+        if isinstance(callee, PartialVal):
+            return self.call(callee.func, callee.args + list(args), dict(callee.kwargs, **kwargs), node, env)
+        if isinstance(callee, ModRef) and callee.name == 'functools.partial' and args:
+            return PartialVal(args[0], args[1:], kwargs)
         r = self.hooks.call(self, callee, args, kwargs, node)
         if r is not NotImplemented:
             return r
@@ -1726,7 +1750,8 @@ class Interp:
     def b_enumerate(self, args, kwargs, node):
         start = kwargs.get('start', args[1] if len(args) > 1 else 0)
         items = list(self.iterate(args[0], node))
-        return [(start + i, x) for i, x in enumerate(items)]
+        # an iterator, as in Python: a loop that leaves it half consumed (break) and comes back later continues where it stopped
+        return LazyGen(iter([(start + i, x) for i, x in enumerate(items)]), 'enumerate')
 
     def b_zip(self, args, kwargs, node):
         its = [list(self.iterate(a, node)) for a in args]
